@@ -91,6 +91,8 @@ def tasks(tier, seed):
         T.append(('ffttransfer', nf, nc, 1))
     for nf, nc in ((8, 4),):  # (12/6 and 16/8 in two dimensions -- 144 x 36 and 256 x 64 unknowns: the query over all band-limited data does not finish in 5 minutes)
         T.append(('ffttransfer', nf, nc, 2))
+    for Mf, Mc in (((3, 2),) if quick else ((3, 2), (4, 2), (5, 3))):
+        T.append(('timeobj', Mf, Mc))
     T.append(('nocoarse',))
     return T
 
@@ -104,6 +106,8 @@ def run_task(rep, task):
         restr_case(rep, *task[1:])
     elif task[0] == 'restrorder':
         restrorder_case(rep, *task[1:])
+    elif task[0] == 'timeobj':
+        timeobj_case(rep, task[1], task[2])
     elif task[0] == 'ffttransfer':
         fft_transfer_case(rep, *task[1:])
     elif task[0] == 'nocoarse':
@@ -167,6 +171,47 @@ def time_case(rep, nt, qt, Mf, Mc):
         else:
             rep.unreproduced(f'{name}:RP', float(dev))
     rep.sample({'case': name, 'free': 'polynomial coefficients / coarse vector in the unit box'}, limit=4)
+
+
+def timeobj_case(rep, Mf, Mc):
+    """the node-to-node matrices that REAL BaseTransfer objects hold (Pcoll, Rcoll), for level pairs built one after the other in one process: the same fine
+    node set with every coarse quadrature type and vice versa.  Each pair is decided against its own nodes (polynomial reproduction below the number of
+    source nodes), so matrices handed over from an earlier pair with the same sizes are noticed."""
+    from harness import c10
+    from symx import pysdc as sp_
+
+    tol = rv(Fraction(1, 10**11))
+    for qf in QUAD_TYPES:
+        for qc in QUAD_TYPES:
+            if min(Mf, Mc) < 2 and ('LOBATTO' in (qf, qc) or 'RADAU-LEFT' in (qf, qc)):
+                continue
+            name = f'timeobj/{Mf}-{Mc}/{qf}+{qc}'
+            try:
+                st = c10.make_step((Mf, Mc), 'implicit', False, qts=(qf, qc), qd='IE')
+                bt = c10.connect(st)[0]
+            except Exception as e:
+                rep.side(name + ':constructible', False, f'{type(e).__name__}: {e}')
+                continue
+            fn, cn = np.asarray(st.levels[0].sweep.coll.nodes, dtype=float), np.asarray(st.levels[1].sweep.coll.nodes, dtype=float)
+            for (T, src, dst, lab) in ((np.asarray(bt.Pcoll, dtype=float), cn, fn, 'prolong'), (np.asarray(bt.Rcoll, dtype=float), fn, cn, 'restrict')):
+                ns = len(src)
+                a = [z3.Real(f'a{k}') for k in range(ns)]
+                pv = lambda x: sum(rv(frac(x) ** k) * a[k] for k in range(ns))
+                goal = []
+                for i in range(len(dst)):
+                    got = sum(rv(T[i, j]) * pv(src[j]) for j in range(ns))
+                    goal += [got - pv(dst[i]) <= tol, pv(dst[i]) - got <= tol]
+                res, m = prove(z3.And(goal), box(a), name=f'{name}:{lab}')
+                rep.ob(f'{name}:{lab}-of-the-object-exact-for-its-own-nodes', res)
+                if res == 'sat':
+                    coefs = [float(model_value(m, v)) for v in a]
+                    rep.replayed += 1
+                    dev = np.abs(T @ np.polyval(coefs[::-1], src) - np.polyval(coefs[::-1], dst)).max()
+                    if dev > 1e-10:
+                        rep.violation(f'{PID}/time-transfer/object/{lab}', f'{name}: the {lab} matrix held by the BaseTransfer object does not reproduce the polynomial {coefs} between ITS node sets (deviation {dev:.3e}; pairs built before in this process: same sizes, other quadrature types)',
+                                      {'task': ['timeobj', Mf, Mc], 'pair': [qf, qc], 'coefficients': coefs, 'deviation': float(dev)})
+                        return
+                    rep.unreproduced(f'{name}:{lab}', coefs)
 
 
 # ------------------------------------------------------------------------------------------------ space
